@@ -228,7 +228,7 @@ Proof. vm_compute. reflexivity. Qed.
 Theorem C03_translated_header_path_full : forall pk g, g_proposer g = Addr pk ->
   forall hs ds b da vals effs,
   b <> BEmpty ->
-  GoLite.run_eff GoLiteFuns.gen_funs [] "Manager.handlePotentialHeader"%string
+  GoLite.run_eff GoLiteFuns.gen_funs [] GoLiteAdmitRefine.header_path
                  (Some (GoLite.VMgr (GoLiteAdmit.mk_mgr g hs ds))) [GoLite.VUnit; GoLite.VBlob b; GoLite.VN da] = Some (vals, effs) ->
   effs <> [] ->
   exists sh, b = BHdr sh /\ signed_by pk sh = true.
@@ -237,7 +237,7 @@ Print Assumptions C03_translated_header_path_full.
 
 Theorem C03_translated_data_path_full : forall pk g, g_proposer g = Addr pk ->
   forall hs ds b da vals effs,
-  GoLite.run_eff GoLiteFuns.gen_funs [] "Manager.handlePotentialData"%string
+  GoLite.run_eff GoLiteFuns.gen_funs [] GoLiteAdmitRefine.data_path
                  (Some (GoLite.VMgr (GoLiteAdmit.mk_mgr g hs ds))) [GoLite.VUnit; GoLite.VBlob b; GoLite.VN da] = Some (vals, effs) ->
   effs <> [] ->
   exists sd, b = BData sd /\ data_signed_by pk sd = true.
